@@ -20,6 +20,7 @@ type exclusiveAnchors struct {
 
 func exclusiveAnchorsOf(c *Ctx) *exclusiveAnchors {
 	P := c.P
+	succProg = P
 	a := &exclusiveAnchors{call: c.F("(*Exclusive).call")}
 	if !a.call.ok() {
 		return nil
@@ -56,9 +57,23 @@ func exclusiveAnchorsOf(c *Ctx) *exclusiveAnchors {
 	return a
 }
 
+// succProg resolves "is this value the successor item" through transparent helpers (set by exclusiveAnchorsOf).
+var succProg *an.Prog
+
+func isSucc(v ssa.Value, succ *ssa.Alloc) bool {
+	if v == ssa.Value(succ) {
+		return true
+	}
+	if succProg != nil {
+		srcs := succProg.Sources(v)
+		return len(srcs) == 1 && srcs[0] == ssa.Value(succ)
+	}
+	return false
+}
+
 func isSuccField(v ssa.Value, succ *ssa.Alloc, field string) bool {
 	fa, ok := v.(*ssa.FieldAddr)
-	return ok && fa.X == ssa.Value(succ) && an.FieldOfAddr(fa) == field
+	return ok && isSucc(fa.X, succ) && an.FieldOfAddr(fa) == field
 }
 
 func exclusiveC09(c *Ctx) {
@@ -88,12 +103,12 @@ func exclusiveC09(c *Ctx) {
 	shared := false
 	for _, in := range an.AllInstrs(r.fn, func(in ssa.Instruction) bool { _, ok := in.(*ssa.MakeClosure); return ok }) {
 		for _, b := range in.(*ssa.MakeClosure).Bindings {
-			if b == ssa.Value(a.succ) {
+			if isSucc(b, a.succ) {
 				shared = true
 			}
 			if cell, ok := b.(*ssa.Alloc); ok {
 				for _, st := range P.CellStores(cell) {
-					if st.Val == ssa.Value(a.succ) {
+					if isSucc(st.Val, a.succ) {
 						shared = true
 					}
 				}
@@ -113,7 +128,7 @@ func exclusiveC09(c *Ctx) {
 	}
 	installs := an.AllInstrs(r.fn, func(in ssa.Instruction) bool {
 		mu, ok := in.(*ssa.MapUpdate)
-		return ok && an.IsLoadOfField(mu.Map, "Exclusive.work") && mu.Value == ssa.Value(a.succ)
+		return ok && an.IsLoadOfField(mu.Map, "Exclusive.work") && isSucc(mu.Value, a.succ)
 	})
 	r.add("PATH", "the successor is created already running", initTrue, pickS(initTrue, "running: true in the composite literal", "the successor item is not marked running when installed: a new call could start while this work runs"))
 	if r.need(installs, "PATH", "e.work[key] = successor") {
@@ -165,11 +180,29 @@ func exclusiveC09(c *Ctx) {
 				// must be the predecessor in the same map slot (the captured current item)
 				ld, _ := isLoad(st.Val)
 				base := ld.X.(*ssa.FieldAddr).X
-				okb := false
-				for _, s := range P.Sources(base) {
-					if lk, isLk := s.(*ssa.Lookup); isLk && an.IsLoadOfField(lk.X, "Exclusive.work") {
-						okb = true
+				srcs := P.Sources(base)
+				okb := len(srcs) > 0
+				for _, s := range srcs {
+					if ex, isEx := s.(*ssa.Extract); isEx {
+						s = ex.Tuple
 					}
+					if lk, isLk := s.(*ssa.Lookup); isLk && an.IsLoadOfField(lk.X, "Exclusive.work") {
+						continue // the item found in the map
+					}
+					if al, isAl := s.(*ssa.Alloc); isAl {
+						// ... or the item this call has just created and put into the map
+						inMap := false
+						for _, mu := range an.AllInstrs(al.Parent(), func(in ssa.Instruction) bool { _, ok := in.(*ssa.MapUpdate); return ok }) {
+							m := mu.(*ssa.MapUpdate)
+							if an.IsLoadOfField(m.Map, "Exclusive.work") && srcIs(P, m.Value, al) {
+								inMap = true
+							}
+						}
+						if inMap {
+							continue
+						}
+					}
+					okb = false
 				}
 				same = okb
 			}
@@ -219,7 +252,7 @@ func exclusiveC10(c *Ctx) {
 	// 1. attach only to the item currently in the map
 	eqIfs, negs := P.IfsOn(q.fn, func(cond ssa.Value) bool {
 		b, ok := cond.(*ssa.BinOp)
-		if !ok || b.Op != token.EQL {
+		if !ok || (b.Op != token.EQL && b.Op != token.NEQ) {
 			return false
 		}
 		isLk := func(v ssa.Value) bool {
@@ -238,9 +271,13 @@ func exclusiveC10(c *Ctx) {
 	if len(eqIfs) != 1 {
 		q.undecided("PATH", "validity test e.work[key] == item", "the re-validation of the item against the map was not found as a single equality test")
 	} else {
+		// ts: the successor taken when the map's entry IS the item
 		ts := 0
 		if negs[0] {
 			ts = 1
+		}
+		if stripNotV(eqIfs[0].Cond).(*ssa.BinOp).Op == token.NEQ {
+			ts = 1 - ts
 		}
 		for _, f := range []string{"exclusiveItem.work", "exclusiveItem.wait", "exclusiveItem.count", "exclusiveItem.ts"} {
 			for _, s := range an.FieldStores(q.fn, f) {
@@ -528,7 +565,7 @@ func exclusiveC09installOnly(c *Ctx) {
 	}
 	installs := an.AllInstrs(a.runner.fn, func(in ssa.Instruction) bool {
 		mu, ok := in.(*ssa.MapUpdate)
-		return ok && an.IsLoadOfField(mu.Map, "Exclusive.work") && mu.Value == ssa.Value(a.succ)
+		return ok && an.IsLoadOfField(mu.Map, "Exclusive.work") && isSucc(mu.Value, a.succ)
 	})
 	if a.runner.need(installs, "PATH", "e.work[key] = successor") {
 		ok := c.P.Before(a.runner.fn, an.Is(installs[0]), a.work)
